@@ -56,6 +56,7 @@ _SCRIPTS = {
     "fail": "#!/bin/sh\n/bin/sleep 0.03\nexit 1\n",
     "big": "#!/bin/sh\nexec /usr/bin/seq 1 50000\n",  # ~289 KB, quickly
     "slowbig": "#!/bin/sh\nexec /usr/bin/yes c09c09c09c09c09c09c09c09c09c09c09\n",  # until SIGPIPE
+    "killed": "#!/bin/sh\n/bin/sleep 0.03\nkill -9 $$\n",  # dies from a signal
     "eat": "#!/bin/sh\nwhile IFS= read -r l; do :; done\nexit 0\n",
     "head1": "#!/bin/sh\nIFS= read -r l\necho \"$l\"\nexit 0\n",
 }
@@ -130,6 +131,7 @@ WORD = {
     "ext_big": "big",
     "ext_slowbig": "slowbig",
     "ext_eat": "eat",
+    "ext_killed": "killed",
     "ext_head1": "head1",
     "nosuch": "nosuchcmd",
     "nonexec": "noexec",
@@ -166,8 +168,11 @@ def render(case):
     red = case["redirect"]
     parts = []
     n = len(stages)
+    flag = case.get("flag") or "none"
     for i, kind in enumerate(stages):
         w = WORD[kind]
+        if i == n - 1 and flag in ("@error_raise", "@error_ignore"):
+            w = flag + " " + w  # only the last spec's raise_subproc_error is consulted
         if i == 0 and red == "<missing":
             w += " < missing.txt"
         if i == 0 and red == "a>p":
@@ -433,7 +438,20 @@ def _stdio():
     return out
 
 
-def snapshot(XSH, work, base):
+def _tty_state():
+    """Who owns the controlling terminal (fd 2, the fd xonsh itself uses) and its attributes."""
+    import termios
+
+    try:
+        owner = os.tcgetpgrp(2)
+        attrs = termios.tcgetattr(2)
+    except (OSError, termios.error) as e:
+        return {"error": f"{type(e).__name__}: {e}"}
+    attrs = [a if not isinstance(a, list) else [c.hex() if isinstance(c, bytes) else c for c in a] for a in attrs]
+    return {"owner": "shell" if owner == os.getpgrp() else "other-process-group", "attrs": attrs}
+
+
+def snapshot(XSH, work, base, tty=False):
     import subprocess
 
     gc.collect()
@@ -451,6 +469,7 @@ def snapshot(XSH, work, base):
         "stdio": _stdio(),
         "handlers": {s: _describe_handler(signal.getsignal(getattr(signal, s))) for s in _SIGS},
         "env": env,
+        **({"tty": _tty_state()} if tty else {}),
     }
 
 
@@ -535,9 +554,16 @@ def _alarm(signum, frame):
     raise _CaseTimeout()
 
 
-def _child(case, resfd):
-    """Runs in a freshly forked process; never returns."""
+def _noop_handler(signum, frame):
+    pass
+
+
+def _child(case, resfd, slave=None):
+    """Runs in a freshly forked process; never returns.  With `slave` (a pty slave created by the
+    parent, which drains the master) the case process becomes a session leader whose CONTROLLING
+    terminal is that pty, on fds 0/1/2, like an interactive xonsh."""
     res = {}
+    tty = slave is not None
     try:
         os.setsid()
         base = common.scratch_dir("c09case")
@@ -546,9 +572,17 @@ def _child(case, resfd):
         os.chdir(work)
         t1 = os.path.join(base, "term1")
         t2 = os.path.join(base, "term2")
-        fd0 = os.open("/dev/null", os.O_RDONLY)
-        fd1 = os.open(t1, os.O_WRONLY | os.O_CREAT | os.O_APPEND, 0o600)
-        fd2 = os.open(t2, os.O_WRONLY | os.O_CREAT | os.O_APPEND, 0o600)
+        if tty:
+            import fcntl
+            import termios
+
+            fcntl.ioctl(slave, termios.TIOCSCTTY, 0)
+            fd0, fd1, fd2 = os.dup(slave), os.dup(slave), os.dup(slave)
+            os.close(slave)
+        else:
+            fd0 = os.open("/dev/null", os.O_RDONLY)
+            fd1 = os.open(t1, os.O_WRONLY | os.O_CREAT | os.O_APPEND, 0o600)
+            fd2 = os.open(t2, os.O_WRONLY | os.O_CREAT | os.O_APPEND, 0o600)
         try:
             sys.stdout.flush()
             sys.stderr.flush()
@@ -570,6 +604,16 @@ def _child(case, resfd):
 
         XSH.env["PWD"] = work
         XSH.env["OLDPWD"] = work
+        if tty:
+            # what xonsh.main sets up for an interactive shell on a terminal: no-op Python handlers
+            # for SIGTTIN/SIGTTOU (main._handle_sig_ttin_ttou) and $XONSH_INTERACTIVE
+            signal.signal(signal.SIGTTOU, _noop_handler)
+            signal.signal(signal.SIGTTIN, _noop_handler)
+            XSH.env["XONSH_INTERACTIVE"] = True
+            if os.tcgetpgrp(2) != os.getpgrp():
+                raise RuntimeError("case process does not own its controlling terminal")
+        if case.get("flag") == "cmd_raise":
+            XSH.env["XONSH_SUBPROC_CMD_RAISE_ERROR"] = True
         install_aliases(XSH)
         inj = Injector(case.get("fault"))
         if case.get("shims", True):
@@ -582,9 +626,10 @@ def _child(case, resfd):
         if threading.active_count() != 1:
             raise RuntimeError(f"case process starts with helper threads: {threading.enumerate()}")
         probe0 = ctrl_c_probe()
-        snaps = [snapshot(XSH, work, base)]
+        snaps = [snapshot(XSH, work, base, tty)]
         outcomes = []
         logs = []
+        handed = []
         threading.excepthook = _excepthook
         signal.signal(signal.SIGALRM, _alarm)
         signal.setitimer(signal.ITIMER_REAL, EXEC_ALARM)
@@ -601,6 +646,9 @@ def _child(case, resfd):
                     del e
                 outcomes.append(exc)
                 logs.append(list(inj.log))
+                if tty:
+                    # coverage only (not the oracle): did xonsh give the terminal away in this run?
+                    handed.append(getattr(getattr(XSH, "lastcmd", None), "term_pgid", None) is not None)
                 try:
                     sys.stdout.flush()
                     sys.stderr.flush()
@@ -608,13 +656,14 @@ def _child(case, resfd):
                     pass
                 quiesce()
                 if _rep == 0 or _rep == reps - 1:
-                    snaps.append(snapshot(XSH, work, base))
+                    snaps.append(snapshot(XSH, work, base, tty))
         except _CaseTimeout:
             res["hang"] = True
             res["hang_stacks"] = sorted(_HANG_STACKS)
         finally:
             signal.setitimer(signal.ITIMER_REAL, 0)
         res["outcomes"] = outcomes
+        res["handed_over"] = handed
         res["thread_deaths"] = sorted(set(_THREAD_DEATHS))
         res["injected_thread_deaths"] = sorted(set(_INJECTED_DEATHS))
         res["log"] = logs[0] if logs else []
@@ -717,35 +766,104 @@ def _session_pids(sid):
     return out
 
 
+def _proc_state(pid):
+    try:
+        with open(f"/proc/{pid}/stat") as f:
+            return f.read().rsplit(")", 1)[1].split()[0]
+    except (OSError, IndexError):
+        return None
+
+
+def tty_supported():
+    """Can a forked child make a fresh pty its controlling terminal here?  (None = yes, else why not)"""
+    import pty
+
+    try:
+        master, slave = pty.openpty()
+    except OSError as e:
+        return f"pty.openpty: {e}"
+    pid = os.fork()
+    if pid == 0:
+        code = 0
+        try:
+            import fcntl
+            import termios
+
+            os.close(master)
+            os.setsid()
+            fcntl.ioctl(slave, termios.TIOCSCTTY, 0)
+            if os.tcgetpgrp(slave) != os.getpgrp():
+                code = 4
+        except BaseException:  # noqa: BLE001
+            code = 3
+        finally:
+            os._exit(code)
+    os.close(slave)
+    _, status = os.waitpid(pid, 0)
+    os.close(master)
+    rc = os.waitstatus_to_exitcode(status)
+    return None if rc == 0 else f"setsid/TIOCSCTTY refused (probe exit {rc})"
+
+
 def run_case(case):
     """Fork, run the case in the child, return its observation dict.  A child that does not answer
-    in time is killed together with its whole session and reported as a hang (an observation)."""
+    in time - or that sits stopped by a terminal signal - is killed together with its whole
+    session and reported as a hang (an observation).  For tty cases the parent owns the pty
+    master and drains it, so nothing ever blocks on terminal output."""
     warm_up()
     r, w = os.pipe()
+    master = slave = None
+    if case.get("tty"):
+        import pty
+
+        master, slave = pty.openpty()
     sys.stdout.flush()
     sys.stderr.flush()
     pid = os.fork()
     if pid == 0:
         os.close(r)
-        _child(case, w)
+        if master is not None:
+            os.close(master)
+        _child(case, w, slave)
         os._exit(0)
     os.close(w)
+    if slave is not None:
+        os.close(slave)
     chunks = []
+    term = b""
     deadline = time.time() + EXEC_ALARM + HARD_EXTRA
     timed_out = False
+    stopped_since = None
+    watch = [r] + ([master] if master is not None else [])
     while True:
         left = deadline - time.time()
         if left <= 0:
             timed_out = True
             break
-        ready, _, _ = select.select([r], [], [], left)
-        if not ready:
-            timed_out = True
-            break
-        b = os.read(r, 65536)
-        if not b:
-            break
-        chunks.append(b)
+        ready, _, _ = select.select(watch, [], [], min(left, 0.5))
+        if master in ready:
+            try:
+                b = os.read(master, 65536)
+            except OSError:
+                b = b""
+            if b:
+                term = (term + b)[-2000:]
+            else:
+                watch.remove(master)
+        if r in ready:
+            b = os.read(r, 65536)
+            if not b:
+                break
+            chunks.append(b)
+        if not ready and case.get("tty"):
+            # a shell stopped by SIGTTOU/SIGTTIN/SIGTSTP cannot even run its own alarm
+            if _proc_state(pid) == "T":
+                stopped_since = stopped_since or time.time()
+                if time.time() - stopped_since > 1.5:
+                    timed_out = True
+                    break
+            else:
+                stopped_since = None
     os.close(r)
     if timed_out:
         for p in _session_pids(pid) + [pid]:
@@ -763,12 +881,16 @@ def run_case(case):
             os.kill(p, signal.SIGKILL)
         except OSError:
             pass
+    if master is not None:
+        os.close(master)
     if timed_out:
-        return {"hang": True, "hard": True, "snaps": [], "outcomes": [], "log": [], "fired": 0}
+        return {"hang": True, "hard": True, "stopped": stopped_since is not None, "snaps": [], "outcomes": [], "log": [], "fired": 0, "term2_tail": term.decode("utf-8", "replace")[-400:]}
     try:
         res = json.loads(b"".join(chunks).decode())
     except ValueError:
         raise common.ToolError(f"case child died without a result: {case!r}") from None
     if "harness_error" in res:
         raise common.ToolError(f"case child failed: {res['harness_error']}\ncase={case!r}")
+    if master is not None:
+        res["term2_tail"] = term.decode("utf-8", "replace")[-400:]
     return res
